@@ -297,8 +297,9 @@ def _check_one(reg, c07_replay, have_beta, have_er, vip, dim):
             goals.append(num_expr(ent["volume_ratio"][1]) == Vr)
             goals.append(num_expr(ent["radius_effective"][1]) == Reff)
             goals.append(z3.BoolVal(ent["P(Q) parts"][1] == "P-intermediates"))
+            from contracts import c07_replay as _rp
             reg.prove("%s.results.are_the_values_used.%s" % (PROP, tag), pc + [jq >= 0, jq < nq],
-                      z3.And(*goals), function=MOD + "._intermediates", nl=True)
+                      z3.And(*goals), function=MOD + "._intermediates", nl=True, replay=_rp.replay_results)
             if have_beta:
                 # beta(Q) is reported exactly when beta mode is on
                 pres = ent["beta(Q)"][0] if "beta(Q)" in ent else False
